@@ -5,6 +5,9 @@ import PytezosModel.Michelson.Interp.Spec
 namespace Interp
 open Stack
 
+-- the second group of rules unfolds together with the first
+attribute [simp] Spec.stepMore Impl.stepMore Typing.stepMore
+
 theorem fromComb_cons (a : Val) (xs : List Val) (r : Val) (h : Impl.fromComb xs = .ok r) :
     Impl.fromComb (a :: xs) = .ok (.pair a r) := by
   rcases xs with _ | ⟨b, _ | ⟨c, rest⟩⟩
